@@ -108,17 +108,20 @@ def run(ctx):
     # ------------------------------------------------------------------ R4.3 / R4.5
     ctx.rule("R4.3", "the length prefix is read with calcsize(format) bytes and rejected with EOFError when len(d) != that size")
     ctx.rule("R4.5", "the decoder receives the fresh result of fp.read(size) where size is the decoded length; no persistent buffer, no unchecked readinto")
-    ups = [c for c in calls_in(rd) if call_name(c) == "struct.unpack"]
-    if not ups:
-        raise AnalysisError("R4.3: struct.unpack not found in read()")
-    fmt = prog.fold(stream_m, ups[0].args[0])
+    from .frame_common import assigned_from, struct_sites
+
+    usites = struct_sites(prog, rd, "unpack")
+    if not usites:
+        raise AnalysisError("R4.3: length-prefix unpack site not found in read()")
+    ucall, fmt, udata = usites[0]
+    ups = [ucall]
     n = struct.calcsize(fmt)
     rcfg = CFG(rd)
-    pvar = norm(ups[0].args[1])
+    pvar = norm(udata[0])
     prefix_read = None
     for st in walk_no_nested(rd):
         if isinstance(st, ast.Assign) and norm(st.targets[0]) == pvar and isinstance(st.value, ast.Call) and isinstance(st.value.func, ast.Attribute) \
-                and st.value.func.attr == "read" and st.lineno < ups[0].lineno:
+                and st.value.func.attr == "read" and st.lineno <= ucall.lineno:
             prefix_read = st
             break
     ok = prefix_read is not None and _fold(prog, stream_m, prefix_read.value.args[0]) == n
@@ -137,10 +140,7 @@ def run(ctx):
     if not decs:
         raise AnalysisError("R4.5: self.packer.unpack(...) not found in read()")
     arg = decs[0].args[0]
-    size_var = None
-    for st in walk_no_nested(rd):
-        if isinstance(st, ast.Assign) and ups[0] in list(ast.walk(st.value)):
-            size_var = norm(st.targets[0])
+    size_var = assigned_from(rd, ucall)
     construct = "read:body"
     if not isinstance(arg, ast.Name):
         ctx.fail("R4.5", construct, f"the decoder is given {norm(arg)}, not a freshly read bytes object", decs[0], key="R4.5:read:body-not-fresh-read")
@@ -168,14 +168,22 @@ def run(ctx):
     ctx.floor("R4.4", "fp.write sites in RecordStreamWriter.write", len(fpw), 1)
     if packs:
         pn = wcfg.node_of(packs[0]).id
-        ctx.check(all(wcfg.dominates(pn, wcfg.node_of(w).id) and pn != wcfg.node_of(w).id for w in fpw), "R4.4", "write:pack-before-write",
+        ctx.check(all((wcfg.dominates(pn, wcfg.node_of(w).id) and pn != wcfg.node_of(w).id) or (len(fpw) == 1 and any(packs[0] in list(ast.walk(a)) for a in w.args))
+                      for w in fpw), "R4.4", "write:pack-before-write",
                   "part of the frame can be written before the body has been built: a failing pack leaves a partial frame", wr, "pack dominates every write")
     else:
         ctx.fail("R4.4", "write:pack", "pack() call not found", wr, key="R4.4:write:no-pack")
     if len(fpw) == 2:
         a, b = sorted(fpw, key=lambda c: (c.lineno, c.col_offset))
-        first_is_prefix = any(isinstance(x, ast.Call) and call_name(x) == "struct.pack" for x in ast.walk(a))
-        between = [n for n in wcfg.stmt_nodes() if a.lineno < n.lineno < b.lineno]
+        from ..core import single_assign_aliases
+
+        psites = [c0 for c0, _, _ in struct_sites(prog, wr, "pack")]
+        wal = single_assign_aliases(wr)
+        first_is_prefix = any(x in psites for x in ast.walk(a)) or any(
+            isinstance(x, ast.Name) and x.id in wal and any(y in psites for y in ast.walk(wal[x.id])) for x in ast.walk(a))
+        na, nb = wcfg.node_of(a), wcfg.node_of(b)
+        between = [n for n in wcfg.stmt_nodes() if n.id not in (na.id, nb.id) and n.id in wcfg.reachable(na.id) and nb.id in wcfg.reachable(n.id)
+                   and any(isinstance(x, ast.Call) for x in ast.walk(n.ast))]
         ctx.check(first_is_prefix and not between, "R4.4", "write:prefix-then-body", "the frame is not written as prefix immediately followed by body", wr, "prefix, body")
     elif len(fpw) == 1:
         ctx.ok("R4.4", "write:single-write", "frame written with one write call", wr)
